@@ -32,7 +32,88 @@ def check(F, rep, tier):
     san.zero_strip_result(F, rep, "R16.5")
     san.zero_strip_paths(F, rep, "R16.5")
     san.replace_result_origin(F, rep, "R16.1")
+    wrapper_rules(F, rep)
     return core.finish(rep, explanation=EXPL, assumptions=ASSUME, trusted=TRUST)
+
+ALTERING = ("::filter", "::and_then", "::or", "::or_else", "::xor", "::min", "::max", "::then", "::then_some", "::take", "::skip", "::collect", "::trim", "::trim_end",
+            "::trim_start", "::trim_matches", "::trim_end_matches", "::trim_start_matches", "::replace", "::to_lowercase", "::to_uppercase", "::truncate", "::parse",
+            "::saturating_sub", "::saturating_add", "::clamp", "::unwrap_or_default", "::zip", "::rev", "::split", "::join")
+
+def wrapper_rules(F, rep):
+    """R16.6: the two ways the contract's settings reach the sanitiser do not alter them: the constructor Sanitizer::str stores its
+    parameters as given, and the template function sanitize(..) forwards its arguments to that constructor and returns the
+    sanitised text itself (a string, not re-cut, not re-typed)."""
+    rule = "R16.6"
+    ctor = F.fn("crate::utils::sanitize::Sanitizer::str")
+    if rep.anchor(rule, "Sanitizer::str", ctor):
+        rep.fn_seen(ctor)
+        ci = mir.inlined(F, ctor, depth=2)
+        nset = 0
+        for bi, si, st in ci.stmts():
+            if not (st[0] == "=" and st[2][0] == "agg" and (st[2][1].get("adt") or "").endswith("sanitize::Sanitizer")): continue
+            for nm, op in zip(st[2][1]["fields"], st[2][2]):
+                if nm not in ("separator", "lowercase", "keep_zeros", "max_length"): continue
+                nset += 1
+                site = "%s bb%d line %s" % (ci.where(), bi, ci.blocks[bi]["line"])
+                calls = set(); params = set()
+                for k, d in mir.deep_origins(ci, op, stop=()):
+                    if k == "call" and d.isdigit() and ci.blocks[int(d)]["t"][0] == "call": calls.add(mir.callee(ci.blocks[int(d)]["t"]) or "?")
+                    elif k == "param": params.add(int(d))
+                want = {"separator": 1, "lowercase": 2, "keep_zeros": 3, "max_length": 4}[nm]
+                alter = sorted(c.rsplit("::", 1)[-1] for c in calls if any(c.endswith(x) for x in ALTERING))
+                other = sorted(c.rsplit("::", 1)[-1] for c in calls if not any(c.endswith(x) for x in ALTERING) and not (nm == "separator" and (c.endswith("Option::<T>::map") or c.endswith("::to_string") or c.endswith("::to_owned") or c.endswith("::into") or c.endswith("String::from") or "From<" in c)))
+                if alter: rep.bad(rule, "ctor-alters:" + nm, "Sanitizer::str passes %s through %s before storing it: some settings (e.g. max_length = 0) are replaced by others" % (nm, alter), site)
+                elif params != {want}: rep.bad(rule, "ctor-wiring:" + nm, "Sanitizer::str fills %s from parameter(s) %s, expected parameter %d" % (nm, sorted(params), want), site)
+                elif other: rep.undecided(rule, "ctor-shape:" + nm, "%s is computed through %s" % (nm, other), site)
+                else: rep.ok(rule, "Sanitizer::str stores %s as given" % nm, sample=site, nontrivial_key="ctor" + nm)
+        rep.floor(rule, "settings stored by Sanitizer::str", nset, 4)
+    tf = F.fn("crate::cli::utils::template::functions::sanitize_function")
+    if rep.anchor(rule, "template function sanitize()", tf):
+        rep.fn_seen(tf)
+        ti = mir.inlined(F, tf, depth=2, keep=("sanitize", "str", "semver_str", "pep440_local_str", "uint", "key", "get_string_value"))
+        scope = [ti] + mir.closures_in(F, ti)
+        # (a) the four settings handed to Sanitizer::str come from the template arguments of the same name
+        nfw = 0
+        for bi, t in ti.calls():
+            if (mir.callee(t) or "") != "crate::utils::sanitize::Sanitizer::str" or len(t[2]) != 4: continue
+            for nm, a in zip(("separator", "lowercase", "keep_zeros", "max_length"), t[2]):
+                nfw += 1
+                site = "%s bb%d line %s" % (ti.where(), bi, ti.blocks[bi]["line"])
+                keys = set(); alter = set()
+                for k, d in mir.deep_origins(ti, a, stop=()):
+                    if k == "call" and d.isdigit() and ti.blocks[int(d)]["t"][0] == "call":
+                        t2 = ti.blocks[int(d)]["t"]; c2 = mir.callee(t2) or ""
+                        if c2.endswith("HashMap<K, V, S>::get") or c2.endswith("::get_string_value") or c2.endswith("::get"):
+                            for a2 in t2[2][1:]:
+                                v = mir.const_arg(ti, a2)
+                                if isinstance(v, str): keys.add(v)
+                        if any(c2.endswith(x) for x in ("::filter", "::min", "::max", "::saturating_sub", "::clamp", "::or", "::xor")): alter.add(c2.rsplit("::", 1)[-1])
+                if alter: rep.bad(rule, "template-arg-altered:" + nm, "sanitize(..) passes its %s argument through %s before building the sanitiser" % (nm, sorted(alter)), site)
+                elif keys == {nm}: rep.ok(rule, "sanitize(..): %s is forwarded to Sanitizer::str" % nm, sample=site, nontrivial_key="fw" + nm)
+                elif not keys: rep.bad(rule, "template-arg-dropped:" + nm, "sanitize(..) builds its sanitiser without the %s argument it was given (a constant is passed instead): the setting is not applied inside the sanitiser, so whatever is done about it afterwards is not followed by the clean-up phases" % nm, site)
+                else: rep.bad(rule, "template-arg-wiring:" + nm, "sanitize(..) fills %s from the template argument(s) %s" % (nm, sorted(keys)), site)
+        rep.floor(rule, "settings forwarded by the template function", nfw, 4)
+        # (b) what is returned is Value::String(<result of Sanitizer::sanitize>)
+        nret = 0
+        for h in scope:
+            for bi, si, st in h.stmts():
+                if not (st[0] == "=" and st[2][0] == "agg" and st[2][1].get("k") == "adt" and (st[2][1].get("adt") or "").endswith("Value") and st[2][1].get("variant") not in (None, "Ok", "Err")): continue
+                adt = st[2][1]["adt"]
+                if not ("serde_json" in adt or "tera" in adt): continue
+                nret += 1
+                site = "%s bb%d line %s" % (h.where(), bi, h.blocks[bi]["line"])
+                if st[2][1]["variant"] != "String":
+                    rep.bad(rule, "template-result-retyped", "sanitize(..) returns a Value::%s: the sanitised text is converted to another type (a number drops kept leading zeros)" % st[2][1]["variant"], site); continue
+                calls = set()
+                for k, d in mir.deep_origins(h, st[2][2][0], stop=()):
+                    if k == "call" and d.isdigit() and h.blocks[int(d)]["t"][0] == "call": calls.add(mir.callee(h.blocks[int(d)]["t"]) or "?")
+                direct = {mir.callee(o.fn.blocks[o.data]["t"]) or "?" for o in mir.trace_op(h, st[2][2][0], transparent=()) if o.kind == "call"}
+                post = sorted(c.rsplit("::", 1)[-1] for c in direct if not c.endswith("Sanitizer::sanitize"))
+                if not direct: rep.undecided(rule, "template-result-shape", "the returned string is not a call result", site)
+                elif not post: rep.ok(rule, "sanitize(..) returns the sanitiser's result unchanged (Value::String)", sample=site, nontrivial_key="ret%d" % bi)
+                elif any(("::" + x) in ALTERING for x in post): rep.bad(rule, "template-result-postprocessed", "sanitize(..) passes the sanitised text through %s before returning it: what the sanitiser guarantees (no trailing separator, no zero-led digit segment, idempotence) need not hold for the cut text" % post, site)
+                else: rep.undecided(rule, "template-result-shape", "the returned string comes from %s" % post, site)
+        rep.floor(rule, "values returned by the template function", nret, 1)
 
 EXPL = ("Structural clauses of the sanitiser contract decided on the MIR of utils::sanitize: (R16.1) every character appended to the result is dominated by an ASCII-alphanumeric predicate on that same character, "
         "everything else appended is the separator or a constant; (R16.2) every cut position is an index produced by char_indices() of the same string, i.e. on a character boundary, within bounds, and counting characters; "
